@@ -26,6 +26,26 @@ def ic_label(code):
     return "SI%d" % (code - 16)
 
 
+def seq_interrogator(m):
+    """interrogator() after other functions have looked at the same string (call-history independence)"""
+    import pyModeS
+    pyModeS.common.crc(m, encode=True)
+    pyModeS.common.icao(m)
+    a = pyModeS.allcall.interrogator(m)
+    pyModeS.common.crc(m)
+    b = pyModeS.allcall.interrogator(m)
+    return a if a == b else "%s then %s" % (a, b)
+
+
+def seq_idcode(m):
+    import pyModeS
+    pyModeS.common.icao(m)
+    a = pyModeS.common.idcode(m)
+    pyModeS.common.crc(m, encode=True)
+    b = pyModeS.common.idcode(m)
+    return a if a == b else "%s then %s" % (a, b)
+
+
 def cases(ctx):
     rng = ctx.rng
     nbg = ctx.n(1, 4)
@@ -74,6 +94,8 @@ def cases(ctx):
             f = spec.df_frame(rng, 11, 56, [], overlay_addr=code)
             m = hex_of(f, rng.choice(["upper", "lower"]))
             yield dict(op="interrogator " + m, real=("pyModeS.allcall.interrogator", [m]), expect=ic_label(code), tag="ic")
+            if code % 4 == 0:
+                yield dict(op=None, real=("h:props.C08.seq_interrogator", [m]), expect=ic_label(code), tag="ic-sequence")
     # guards
     for df in range(32):
         for n in (56, 112):
